@@ -291,6 +291,22 @@ def run(ctx):
         dflt = rng.choice([{'SKIP': True}, {'SKIP': False}, {'IGNORE_WANT': True}])
         start = (bool(dflt.get('SKIP', False)), ())
         cases.append(dict(doc=render(events, SHAPES), expect=spec_trace(events, start), events=events, default=dflt))
+    # "a skipped statement has no effect at all": also not on what a later want is compared with.  Output printed before a
+    # skipped statement (with or without a want of its own) still belongs to the next executed want
+    for skipdir in ('+SKIP', '+REQUIRES(%s)' % UA, '+REQUIRES(%s)' % UB):
+        for skipped_has_want in (False, True):
+            for block in (False, True):
+                lines = [">>> print('early', t(10))"]
+                if block:
+                    lines += ['>>> # xdoctest: %s' % skipdir, ">>> print('skipped', t(11))"]
+                else:
+                    lines += [">>> print('skipped', t(11))  # xdoctest: %s" % skipdir]
+                if skipped_has_want:
+                    lines += ['whatever the skipped statement would print']
+                if block:
+                    lines += ['>>> # xdoctest: %s' % skipdir.replace('+', '-', 1)]
+                lines += [">>> print('late', t(12))", 'early 10', 'late 12']
+                cases.append(dict(doc='\n'.join(lines), expect=[10, 12], events=[('stmt', [], 10), ('stmt', [], 12)]))
     chunks = [cases[i:i + 150] for i in range(0, len(cases), 150)]
     results = [r for ch in common.pmap(_worker, chunks) for r in ch]
     seen = set()
